@@ -119,11 +119,11 @@ def zero_failures(model, zeros, with_synth=True):
     return fails
 
 
-def problem(listname, li, seed):
-    return M.Problem(M.ATTRS3, M.SIZES3, LISTS[listname], li, 'pos', seed, total=50.0, noise_mult=1.0)
+def problem(listname, li, seed, total=50.0):
+    return M.Problem(M.ATTRS3, M.SIZES3, LISTS[listname], li, 'pos', seed, total=total, noise_mult=1.0 if total >= 1 else 0.01)
 
 
-def run_history(zero, engine, warm, iters, hist, seed, check_all=True):
+def run_history(zero, engine, warm, iters, hist, seed, check_all=True, total=50.0):
     """replay a history of estimate calls on one estimator; returns failures found after the LAST call
     (and after every call when check_all)"""
     from mbi import Domain, FactoredInference
@@ -132,9 +132,9 @@ def run_history(zero, engine, warm, iters, hist, seed, check_all=True):
     eng = FactoredInference(Domain(M.ATTRS3, M.SIZES3), iters=iters, warm_start=warm, structural_zeros={k: list(v) for k, v in zeros.items()})
     fails = []
     for step, listname in enumerate(hist):
-        prob = problem(listname, step, seed)
+        prob = problem(listname, step, seed, total)
         with M.quiet():
-            model = eng.estimate(prob.fresh_measurements(), total=50.0, engine=engine)
+            model = eng.estimate(prob.fresh_measurements(), total=total, engine=engine)
         if check_all or step == len(hist) - 1:
             f = zero_failures(model, zeros, with_synth=(step == len(hist) - 1))
             fails.extend((k, 'after call %d (%s): %s' % (step + 1, listname, m)) for k, m in f)
@@ -153,12 +153,13 @@ def run_job(job):
     if job['mode'] == 'single':
         for listname in LISTS:
             for iters in ITERS:
-                case = {'zero': job['zero'], 'engine': job['engine'], 'warm': False, 'iters': iters, 'hist': [listname], 'seed': job['seed']}
+                total = 0.4 if iters == 50 else 50.0     # one of the iteration counts runs with a total below one record
+                case = {'zero': job['zero'], 'engine': job['engine'], 'warm': False, 'iters': iters, 'hist': [listname], 'seed': job['seed'], 'total': total}
                 acc.case(case)
                 acc.states += 1
                 acc.transitions += 1
                 acc.traces += 1
-                report(acc, case, run_history(job['zero'], job['engine'], False, iters, [listname], job['seed']))
+                report(acc, case, run_history(job['zero'], job['engine'], False, iters, [listname], job['seed'], total=total))
         acc.sample(case)
         return acc
     # BFS over histories (a state is the history that reaches it)
@@ -183,7 +184,7 @@ def run_job(job):
 
 
 def replay(case):
-    fails = run_history(case['zero'], case['engine'], case['warm'], case['iters'], case['hist'], case['seed'])
+    fails = run_history(case['zero'], case['engine'], case['warm'], case['iters'], case['hist'], case['seed'], total=case.get('total', 50.0))
     for k, m in fails:
         print(k, m)
     return [{'key': {'kind': k, 'engine': case['engine']}, 'msg': m} for k, m in fails]
